@@ -50,7 +50,18 @@ type Case struct {
 	Steps []Step     `json:"steps"`
 }
 
-var ops = []string{"body", "body_dep", "dep_func", "dep_func_samelen", "dep_method", "dep_method_samelen", "recvmix", "ignore_u1000", "two_files", "iface_use", "generic", "common", "test_body", "pure", "nonnil", "pad", "local", "ignore", "initialism", "rangeint", "conf_pkg", "conf_root", "conf_rm", "flag_go", "flag_tags", "flag_tests", "flag_checks", "goos", "patterns", "touch", "revert", "clock", "tagfile", "osfiles", "test_files", "gomod_go", "rerun"}
+var ops = []string{"body", "body_dep", "dep_func", "dep_func_samelen", "dep_method", "dep_method_samelen", "recvmix", "ignore_u1000", "two_files", "iface_use", "generic", "common", "test_body", "pure", "dep_pure", "plain", "nonnil", "pad", "local", "ignore", "initialism", "rangeint", "conf_pkg", "conf_root", "conf_outer", "conf_rm", "flag_go", "flag_tags", "flag_tests", "flag_checks", "goos", "patterns", "touch", "revert", "clock", "tagfile", "osfiles", "test_files", "gomod_go", "rerun"}
+
+// configuration files above the module root: mostly options other than
+// "checks" (the list of checks is applied after the cache, the other options
+// go into the analysis)
+var outerConfs = append([]string{
+	"initialisms = [\"ACL\"]\n",
+	"initialisms = []\n",
+	"checks = [\"all\"]\ninitialisms = [\"inherit\", \"GET\"]\n",
+	"checks = [\"inherit\", \"ST1003\"]\ninitialisms = [\"GET\", \"URL\"]\n",
+	"checks = [\"inherit\", \"ST1003\"]\n",
+}, genmod.Confs[:4]...)
 
 var goVersions = []string{"", "1.21", "1.22", "1.20", "1.23"}
 var checkSets = []string{"", "all", "inherit,-SA4018", "SA*,U1000", "all,-U1000"}
@@ -178,6 +189,11 @@ func apply(st *state, step Step, history []state) int64 {
 		}
 	case "pure":
 		p.Pure = !p.Pure
+	case "dep_pure":
+		p.DepPure = !p.DepPure
+	case "plain":
+		// the package loses or regains everything that earns it facts
+		p.Plain = !p.Plain
 	case "nonnil":
 		p.NonNil = !p.NonNil
 	case "pad":
@@ -194,6 +210,13 @@ func apply(st *state, step Step, history []state) int64 {
 		p.Conf = genmod.Confs[a%len(genmod.Confs)]
 	case "conf_root":
 		m.RootConf = genmod.Confs[a%len(genmod.Confs)]
+	case "conf_outer":
+		// a configuration file above the module root
+		if m.OuterConf != "" && a%4 == 0 {
+			m.OuterConf = ""
+		} else {
+			m.OuterConf = outerConfs[a%len(outerConfs)]
+		}
 	case "conf_rm":
 		if a%2 == 0 {
 			p.Conf = ""
@@ -283,9 +306,12 @@ func shiftMTimes(dir string, d time.Duration) {
 }
 
 func execute(c Case, rec *tapeRec) batch.Result {
-	dir := caseDir(&c)
-	defer batch.LockModDir(dir)()
-	defer os.RemoveAll(dir)
+	// the module lives one level below the case directory, so that the case
+	// owns the directory above the module root ("conf_outer")
+	outer := caseDir(&c)
+	defer batch.LockModDir(outer)()
+	defer os.RemoveAll(outer)
+	dir := filepath.Join(outer, "m")
 	defer verifhook.Forget()
 	res := batch.Result{Counters: map[string]int{}}
 	st := state{mod: c.Mod.Clone(), flags: c.Flags}
@@ -325,6 +351,9 @@ func execute(c Case, rec *tapeRec) batch.Result {
 		now = now.Add(time.Duration(jump) * time.Second)
 		if err := st.mod.Write(dir); err != nil {
 			return batch.Result{Infra: err.Error()}
+		}
+		if st.mod.OuterConf == "" {
+			os.Remove(filepath.Join(outer, "staticcheck.conf"))
 		}
 		if step.Op == "touch" {
 			t := time.Now()
@@ -487,7 +516,7 @@ func (engine) Generate(seed uint64, index int, tier string) json.RawMessage {
 		switch ops[i] {
 		case "flag_tests", "test_files", "goos":
 			w[i] = r.N(2) // expensive states
-		case "dep_func", "dep_func_samelen", "dep_method", "dep_method_samelen", "pure", "nonnil", "revert", "body_dep":
+		case "dep_func", "dep_func_samelen", "dep_method", "dep_method_samelen", "pure", "dep_pure", "nonnil", "revert", "body_dep", "conf_outer":
 			w[i] += 2
 		}
 		tot += w[i]
